@@ -61,6 +61,22 @@ func (p *parser) parseGlobal(tok token.Token) *ast.Global {
 		p.consumeSemicolonList()
 	}
 
+	// 初始化值的种类必须和声明的类型匹配
+	if g.Init.Lit != nil {
+		var ok bool
+		switch g.TypeTok {
+		case token.FLOAT_zh, token.DOUBLE_zh:
+			_, ok = g.Init.Lit.ConstV.(float64)
+		case token.ASCII_zh:
+			_, ok = g.Init.Lit.ConstV.(string)
+		default:
+			_, ok = g.Init.Lit.ConstV.(int64)
+		}
+		if !ok {
+			p.errorf(g.Init.Pos, "%v: invalid init value %s", g.TypeTok, g.Init.Lit.LitString)
+		}
+	}
+
 	// 验证初始化值的合法性, 填充类型和Size
 	switch g.TypeTok {
 	case token.BYTE_zh:
